@@ -4,7 +4,7 @@ use crate::sx::{c, s, si, Cond, SInt};
 use crate::tpl::*;
 use crate::world::*;
 use cosmwasm_std::Uint128;
-use margined_perp::margined_vamm::CalcFeeResponse;
+use margined_perp::margined_vamm::{CalcFeeResponse, Direction};
 use symrt::prove_d;
 
 /// observations made immediately before a transaction (only what the run's property needs)
@@ -100,10 +100,11 @@ fn c12(r: &Run, rec: &StepRec) {
     }
     match &rec.op {
         Op::Open { margin, lev, .. } => {
-            let cfg = r.w.vamm_config(r.vi);
+            // the ratios as configured (harness ledger of instantiation and owner updates)
+            let (toll_r, spread_r) = r.w.fees_of(r.vi);
             let n = s(*margin).mul(s(*lev)).div_e(c(d));
-            let toll = n.mul(s(cfg.toll_ratio)).div_e(c(d));
-            let spread = n.mul(s(cfg.spread_ratio)).div_e(c(d));
+            let toll = n.mul(s(toll_r)).div_e(c(d));
+            let spread = n.mul(s(spread_r)).div_e(c(d));
             // which arm ran (from the delivered vAMM messages): 2 swaps = reversal
             let swaps = rec.tx.msgs_to("vamm").len();
             let arm = if swaps >= 2 { "reverse" } else { "single-leg" };
@@ -140,6 +141,13 @@ fn c12(r: &Run, rec: &StepRec) {
             let whole = rec.post.pos[&(r.vi, rec.op.sender())].is_none();
             if whole {
                 if let Some(f) = &rec.obs.fee {
+                    // the quote itself is the configured ratio of the position's open notional
+                    if let Some(p) = &rec.obs.pos {
+                        let (toll_r, spread_r) = r.w.fees_of(r.vi);
+                        let t = s(p.notional).mul(s(toll_r)).div_e(c(d));
+                        let sp = s(p.notional).mul(s(spread_r)).div_e(c(d));
+                        prove_d("C12/close-fee-quote-is-configured-ratio-of-open-notional", s(f.toll_fee).eq(t).and(s(f.spread_fee).eq(sp)), what.clone());
+                    }
                     prove_d("C12/close-pays-fee-pool-quoted-toll-on-open-notional", pool.eq(s(f.toll_fee)), what.clone());
                     prove_d("C12/close-pays-insurance-fund-quoted-spread-on-open-notional", ins.eq(s(f.spread_fee)), what.clone());
                     // ... and it is the trader who is charged: the wallet receives the position's
@@ -292,6 +300,21 @@ fn c05(r: &Run, rec: &StepRec) {
             let f = spec::funding_owed(p0, &r.cum_ledger[r.vi], d);
             prove_d("C05/withdraw-wallet-receives-exactly-the-amount", delta(rec, who).eq(s(*amount)), what.clone());
             prove_d("C05/withdraw-margin-falls-by-amount+funding", s(p0.margin).sub(s(p1.margin)).eq(s(*amount).add(f)), what.clone());
+            // funding owed by the harness's own ledger of when the position was last charged (a
+            // stale checkpoint must not make a settled payment count again)
+            if let Some(at) = r.charged_at.get(&(r.vi, *who)) {
+                let f2 = si(&r.cum_ledger[r.vi]).sub(si(at)).mul(si(&p0.size)).div_t(c(d));
+                prove_d("C05/withdraw-margin-falls-by-amount+funding-accrued-since-last-charge", s(p0.margin).sub(s(p1.margin)).eq(s(*amount).add(f2)), what.clone());
+            }
+            // free collateral recomputed from Position, OutputAmount, OutputTwap and Config after
+            // the withdrawal (not the engine's FreeCollateral answer)
+            {
+                let dir = if spec::is_long(p1) { Direction::AddToAmm } else { Direction::RemoveFromAmm };
+                if let (Ok(os), Ok(ot)) = (r.w.output_amount(r.vi, dir.clone(), p1.size.value), r.w.output_twap(r.vi, dir, p1.size.value)) {
+                    let init = r.w.engine_config().initial_margin_ratio;
+                    prove_d("C05/recomputed-free-collateral-non-negative-after-withdraw", spec::free_collateral(p1, os, ot, init, d).ge(c(0)), what.clone());
+                }
+            }
             match r.w.free_collateral(r.vi, who) {
                 Ok(fc) => {
                     prove_d("C05/free-collateral-non-negative-after-withdraw", si(&fc).ge(c(0)), what.clone());
